@@ -16,9 +16,8 @@ CONSTANTS
   PreResp = TRUE
   Probe = FALSE
   AsBuiltT <- ZeroNoTimeout
-  GenDepth = 0
-INIT InitH
-NEXT NextH
+INIT TInit
+NEXT TNext
 VIEW TView
 INVARIANTS TTypeOK TypeOK C19NotEarly C19InnerFirst C19ByDeadline TimerWakes C19Unchanged C19TimeoutOnlyIfPending C19Dropped NoOrphan PureHasOwner MarkerHasOwner C02state HandleUnique
 PROPERTIES C19Deadline C19NoLater
